@@ -79,19 +79,26 @@ def eval_roundtrip(case):
     M, tau = case["M"], case["tau"]
     t = window(tau, case["end"], case["n"])
     y = M * np.asarray(rf(t / tau), dtype=float)
+    if case.get("dtype") == "int":  # integer-typed time and production arrays (days, whole units)
+        t = np.unique(np.round(t).astype(np.int64))
+        y = np.round(M * np.asarray(rf(t / tau), dtype=float)).astype(np.int64)
     viol = []
     b = case["bounds"]
     kw = {}
     lo_hi = None
     if b != "default":
         f = {"finite-inside": ((0.2, 5.0), (0.2, 5.0)), "half-inside": ((0.2, np.inf), (0.2, np.inf)),
-             "finite-truth-below": ((2.0, 10.0), (3.0, 9.0)), "finite-truth-above": ((0.01, 0.5), (0.02, 0.4))}[b]
+             "finite-truth-below": ((2.0, 10.0), (3.0, 9.0)), "finite-truth-above": ((0.01, 0.5), (0.02, 0.4)),
+             "half-truth-below": ((3.0, np.inf), (8.0, np.inf)), "fractional": ((0.2137, 5.0331), (0.2137, 5.0331))}[b]
         lo_hi = ((f[0][0] * M, f[0][1] * M), (f[1][0] * tau, f[1][1] * tau))
         kw["bounds"] = Bounds(M=lo_hi[0], tau=lo_hi[1])
     fc = ForecasterOnePhase(rf, **kw)
     with warnings.catch_warnings():
         warnings.simplefilter("ignore")
         try:
+            if case.get("history"):  # the same forecaster has fitted a very different well before
+                t0 = window(case["history"], 3.0, 60)
+                fc.fit(t0, 7.0 * M * np.asarray(rf(t0 / case["history"]), dtype=float))
             fc.fit(t, y)
         except Exception as e:  # noqa: BLE001
             return {"violations": [V("fit/raises", f"fit raised {type(e).__name__}: {e}", case=case)], "outcome": "raise"}
@@ -103,7 +110,7 @@ def eval_roundtrip(case):
     else:
         if not (Mf >= 0 and tf >= 1e-10):
             viol.append(V("fit/inside-bounds", f"fitted M={Mf!r}, tau={tf!r} outside the default bounds", case=case))
-    if b in ("default", "finite-inside", "half-inside"):
+    if b in ("default", "finite-inside", "half-inside") and case.get("dtype") != "int":
         if not (abs(Mf / M - 1) <= RT_TOL and abs(tf / tau - 1) <= RT_TOL):
             viol.append(V("round-trip", f"noise-free data from M={M}, tau={tau} over a window ending at {case['end']} tau "
                           f"({case['n']} samples) fits M={Mf:.6g} ({Mf / M:.4f} x), tau={tf:.6g} ({tf / tau:.4f} x)",
@@ -127,7 +134,7 @@ def eval_roundtrip(case):
         if not abs(float(fc2.M_) - opt) <= 1e-6 * abs(opt):
             viol.append(V("fit-fixed-tau/optimum", f"with tau={tau_s} supplied, M={float(fc2.M_)!r}; bounded least-squares "
                           f"optimum {opt!r}", case=case, observed=float(fc2.M_), expected=opt, tol=1e-6))
-    return {"violations": viol[:3], "outcome": f"rt:{b}", "key": ("r", case["curve"], M, tau, case["end"], case["n"], b)}
+    return {"violations": viol[:3], "outcome": f"rt:{b}", "key": ("r", case["curve"], M, tau, case["end"], case["n"], b, case.get("history"), case.get("dtype"))}
 
 
 def eval_guess(case):
@@ -150,7 +157,7 @@ def eval_guess(case):
                 if not lo <= v <= hi:
                     viol.append(V("guess/inside-finite-bounds", f"{nm} guess {guess} regularised to {out}: outside "
                                   f"[{lo}, {hi}]", case=case, observed=out))
-            elif not v >= lo:
+            elif not (v >= lo and (np.isfinite(v) or not np.isfinite(guess[0 if nm == "M" else 1]))):
                 viol.append(V("guess/above-lower-bound", f"{nm} guess {guess} regularised to {out}: below {lo}", case=case))
     return {"violations": viol, "outcome": "guess", "key": ("g", str(case))}
 
@@ -186,11 +193,17 @@ def cases(tier, seed):
            for c, M, tau, s in itertools.product(curves, Ms, taus, [1 / 7, 3.0, 1e3])]
     ends = [0.6, 1.0, 3.0]
     ns = [50, 200]
-    bnds = ["default", "finite-inside", "half-inside", "finite-truth-below", "finite-truth-above"]
+    bnds = ["default", "finite-inside", "half-inside", "finite-truth-below", "finite-truth-above", "half-truth-below"]
     for c, M, tau, e, n, b in itertools.product(curves, Ms, taus, ends, ns, bnds):
         if not thorough and b != "default" and (n == 200 or e == 1.0):
             continue
         out.append({"kind": "roundtrip", "curve": c, "M": M, "tau": tau, "end": e, "n": n, "bounds": b})
+    for c, tau, h in itertools.product(curves, [3.0, 900.0], [0.05, 2e4]):  # fit history on one forecaster
+        out.append({"kind": "roundtrip", "curve": c, "M": 3e5, "tau": tau, "end": 3.0, "n": 50, "bounds": "default",
+                    "history": h})
+    for c, b in itertools.product(curves, ["default", "fractional", "finite-truth-below"]):  # integer-typed data
+        out.append({"kind": "roundtrip", "curve": c, "M": 5000.0, "tau": 365.25, "end": 3.0, "n": 200, "bounds": b,
+                    "dtype": "int"})
     for Mb, Tb in itertools.product([(0.0, np.inf), (2.0, 50.0), (5.0, np.inf)], [(1e-10, np.inf), (0.5, 4.0), (3.0, np.inf)]):
         for gM, gT in itertools.product(["below", "inside", "above", "inf"], repeat=2):
             out.append({"kind": "guess", "M": list(Mb), "tau": list(Tb), "gM": gM, "gT": gT})
